@@ -390,7 +390,7 @@ def run(ctx):
     from vlib import env
     sdir = env.scratch()
     rec = ctx.rec
-    for i in range(ctx.pick(1500, 30000)):
+    for i in range(ctx.pick(1500, 150000)):
         if not ctx.mine(i):
             continue
         rng = ctx.rng("doc", i)
